@@ -174,17 +174,25 @@ def G3_graphs(rep, flow: Flow):
 
 # ---------------------------------------------------------------------------------------------
 def find_loader(flow: Flow):
-    """the function(s) in which gates are appended with operands read from a table file"""
-    out = set()
+    """the function through which table text enters the gate-appending code: the callee of the call that receives a
+    field of a table line as an argument, in whose dynamic extent all table-derived gates are appended"""
+    from .rules_flow import _pure_table_field
+    entry, emitters = set(), set()
     for fq in ("stabilizer_circuits.get_readout_circuit", "mub_circuits.get_mub_circuits"):
         for r in flow.paths(fq):
-            for ef in r.effects:
-                if ef[0] == "mutate" and ef[4].startswith("append ") and ef[3] == "circuit":
-                    pass
             for ev in r.events:
                 if ev[0] == "tgate-emit":
-                    out.add(ev[1])
-    return out
+                    emitters.add(ev[1])
+                elif ev[0] == "call" and any(_pure_table_field(vkey(a)) for a in ev[2]):
+                    try:
+                        g = flow.prog.func(ev[1])
+                    except AnalysisError:
+                        continue
+                    if (g.cls is None or g.is_static) and not any(x[0] == "call" and x[1] in entry and x is not ev for x in r.events[:r.events.index(ev)] if False):
+                        entry.add(ev[1])
+    if not emitters:
+        return set()
+    return entry or emitters
 
 
 def K1_loader(rep, flow: Flow, T, tier, exact=True):
